@@ -32,6 +32,9 @@ func c04Deliver(cfg Config, nMsgs, nSubs, nacks int) {
 	for i := 0; i < nMsgs; i++ {
 		originals[i] = newMsg(i)
 		vrt.Assert(g.Publish("t", originals[i]) == nil, "publish succeeds")
+		// what was published is what gets delivered: the publisher touching its own object after Publish
+		// returned (e.g. reusing it) must not reach pending deliveries or redeliveries
+		originals[i].Metadata.Set("k2", "added-by-publisher-after-publish")
 	}
 	for i := 0; i < nSubs; i++ {
 		<-done
